@@ -114,6 +114,18 @@ STORE_CFGS = [
 ]
 
 
+# C13: a pairwise-covering sample of the option space (commit workers, warm-up, cache sizes, I/O workers, table size,
+# upper-level caching, pre-population, hasher is fixed per matrix half because roots of different hashers differ)
+CONFIG_MATRIX = [
+    dict(commit_concurrency=1, warm_up=False, page_cache_size=256, leaf_cache_size=256, page_cache_upper_levels=2, io_workers=3, hashtable_buckets=4096),
+    dict(commit_concurrency=2, warm_up=True, page_cache_size=1, leaf_cache_size=1, page_cache_upper_levels=0, io_workers=1, hashtable_buckets=64000),
+    dict(commit_concurrency=3, warm_up=False, page_cache_size=1, leaf_cache_size=256, page_cache_upper_levels=3, io_workers=1, hashtable_buckets=4096, prepopulate=True),
+    dict(commit_concurrency=7, warm_up=True, page_cache_size=256, leaf_cache_size=1, page_cache_upper_levels=1, io_workers=3, hashtable_buckets=2048, prepopulate=True),
+    dict(commit_concurrency=64, warm_up=True, page_cache_size=2, leaf_cache_size=2, page_cache_upper_levels=2, io_workers=2, hashtable_buckets=64000),
+    dict(commit_concurrency=16, warm_up=False, page_cache_size=256, leaf_cache_size=256, page_cache_upper_levels=0, io_workers=3, hashtable_buckets=8192, prepopulate=True),
+]
+
+
 def concretise(beh, consts, rng, *, f=None, emb=None, vt=None, store=None, segment_size=None):
     keys = sorted(consts["Keys"])
     vals = sorted(consts["Vals"])
@@ -265,7 +277,7 @@ def write_trace(path, run_ids, runs):
     return index
 
 
-CLASSES = ["root", "proof", "wit", "kv", "seqn", "poison", "cont"]
+CLASSES = ["root", "proof", "wit", "dec", "alloc", "kv", "seqn", "poison", "cont"]
 
 
 def validate_runs(run_ids, runs, consts, tag, max_rejections=25):
@@ -323,6 +335,10 @@ def attribute(rej, script_steps):
         return "C03" if rec.get("kind") == "crash" else "C04"
     if ev == "Fault":
         return "C14"
+    if cls == "dec":
+        return "C16"
+    if cls == "alloc":
+        return "C19"
     if cls == "root":
         return "C02"
     if cls == "proof":
